@@ -6,7 +6,31 @@
    2. JSON decoder: token count and payload sizes of [jdec_run].
    3. Object unmarshaller: fuel monotonicity, linear fuel bound.
    4. Object unmarshaller: the dynamically sized parts of the value built are
-      bounded by the tokens consumed. *)
+      bounded by the tokens consumed.
+
+   STATUS OF THE REQUESTED STATEMENTS
+   - dec_alloc_bound: the model's account satisfies the stronger
+       a <= 16 * (bytes consumed)         (no item_cap term; 16 is reached by [0x80]);
+     dec_alloc_bound_cap is the requested shape (K = 16).  The model drops the
+     request of the failing step; dec_bytes_request_bound / dec_indef_request_bound
+     bound that dropped request by item_cap (+ 12 * input + 64).
+   - dec_tokens_linear: "length toks <= length bs" is FALSE
+     (dec_tokens_le_bytes_refuted); true: length toks <= 2 * bytes consumed.
+   - jdec_tokens_linear as requested; payloads: sum tok_size <= 3 * bytes
+     (K' = 3, reached: jdec_factor3).
+   - unmarshal_fuel_mono as requested.
+   - unmarshal_total: FALSE under atlas_ranked (unmarshal_total_ranked_refuted) and
+     FALSE with slope 4 for any constant (unmarshal_slope4_refuted, empty atlas);
+     true under the boolean hypothesis [uranked A d] with
+       (3 d + 5) + (3 d + 6) * length ts <= f.
+     unmarshal_top (fuel 50 + 4 * tokens) does return UTFuel on hostile input
+     (unmarshal_top_fuel_refuted); unmarshal_top_with_total / _mono /
+     unmarshal_top_total_short are the true replacements.
+   - unmarshal_size_linear: with gsize the statement is FALSE even with a type-size
+     term added once (gsize_bound_needs_type_term,
+     gsize_grows_by_type_size_per_element); true for [dsize] (payload bytes, slice
+     elements, map entries) against token weight, with constant 1 and no type
+     term: dsize v + 1 + tweight rest <= dsize cur + tweight ts. *)
 From Coq Require Import List ZArith Bool Lia ZifyBool ZifyNat.
 Require Import Tok Utf8 CborSpec CborEnc CborDec JsonDec JsonStrProof JsonDecProof.
 Require Import GoVal Marshal Unmarshal ObjProof.
@@ -1212,6 +1236,33 @@ Example unmarshal_top_fuel_refuted :
   unmarshal_top [] empty_atlas GAny (repeat (Tok (ArrOpen 1) None) 60) = UTFuel /\
   unmarshal [] empty_atlas 400 GAny (VAny None) (repeat (Tok (ArrOpen 1) None) 60) = UStarved.
 Proof. vm_compute. repeat split; reflexivity. Qed.
+
+(* in general: n array heads need 5 n calls *)
+Lemma any_nest_fuel : forall n f cur, (f < 5 * n)%nat ->
+  unmarshal [] empty_atlas f GAny cur (repeat (Tok (ArrOpen 1) None) n) = UFuel.
+Proof.
+  induction n as [|n IH]; intros f cur Hf; [lia|].
+  destruct f as [|f]; [reflexivity|]. rewrite unmarshal_S. cbn [peel].
+  destruct f as [|f]; [reflexivity|]. rewrite unmarshal_bare_S.
+  change (is_unnamed_prim GAny) with false. cbv iota.
+  change (atlas_get empty_atlas GAny) with (@None atlas_entry). cbv iota.
+  change (strip_named GAny) with GAny.
+  destruct f as [|f]; [reflexivity|]. rewrite unmarshal_kind_S.
+  destruct f as [|f]; [reflexivity|]. rewrite unmarshal_any_S. cbn [repeat].
+  destruct f as [|f]; [reflexivity|]. rewrite unmarshal_slice_S.
+  destruct n as [|n]; [lia|]. cbn [repeat].
+  change (Tok (ArrOpen 1) None :: repeat (Tok (ArrOpen 1) None) n) with (repeat (Tok (ArrOpen 1) None) (S n)).
+  rewrite IH by lia. reflexivity.
+Qed.
+
+(* so no constant c makes "c + 4 * tokens" enough, even without any atlas *)
+Theorem unmarshal_slope4_refuted : forall c : nat,
+  exists ts, unmarshal [] empty_atlas (c + 4 * length ts) GAny (VAny None) ts = UFuel.
+Proof.
+  intros c. exists (repeat (Tok (ArrOpen 1) None) (S c)).
+  apply any_nest_fuel. rewrite repeat_length. lia.
+Qed.
+Print Assumptions unmarshal_slope4_refuted.
 
 (* the hypothesis is satisfiable by an atlas with tags and transforms *)
 Example uranked_ok_atlas : uranked ok_atlas 1 = true /\ uranked ok_atlas 0 = false.
